@@ -35,7 +35,7 @@ def flip(rng, b, lo=0, hi=None):
     return bytes(b)
 
 
-def protocol_run(rng, S, t, n, exhaustive_subset=None):
+def protocol_run(rng, S, t, n, exhaustive_subset=None, big_idents=None):
     """-> Case for one full honest run plus corruptions"""
     name = S.name
     T = "fr %s " % name
@@ -48,18 +48,42 @@ def protocol_run(rng, S, t, n, exhaustive_subset=None):
     gsk_b, gpk_b = S.enc_group_sk(sk), S.enc_group_pk(gpk)
     lines.append(T + "keygen " + tape_k.hex()); exp.append("OK %s %s" % (gsk_b.hex(), gpk_b.hex()))
     tape_s = rb(rng, 64 * t + 17)
-    shares, vss = S.trusted_split(F.Tape(tape_s), sk, t, n)
-    shares_b = [S.enc_share(s) for s in shares]
-    vss_b = S.enc_vss_list(vss)
-    lines.append(T + "split %s %s %d %d" % (tape_s.hex(), gsk_b.hex(), t, n))
-    exp.append("OK %s %s" % (",".join(x.hex() for x in shares_b), vss_b.hex()))
+    if big_idents is None:
+        shares, vss = S.trusted_split(F.Tape(tape_s), sk, t, n)
+        shares_b = [S.enc_share(s) for s in shares]
+        vss_b = S.enc_vss_list(vss)
+        lines.append(T + "split %s %s %d %d" % (tape_s.hex(), gsk_b.hex(), t, n))
+        exp.append("OK %s %s" % (",".join(x.hex() for x in shares_b), vss_b.hex()))
+    else:
+        # large group (identifiers beyond one byte): the reference evaluates the dealer's polynomial itself for the
+        # chosen identifiers; the library's split is checked through split_big (three shares + all shares verify)
+        n_total = n
+        take = F.Tape(tape_s)
+        coef = [sk] + [S.random_scalar(take) for _ in range(t - 1)]
+        vss = [S.G_mulgen(c) for c in coef]
+
+        def f_(x):
+            y = 0
+            for c in reversed(coef):
+                y = (y * x + c) % S.order
+            return y
+        vss_b = S.enc_vss_list(vss)
+        pick = [1, n_total // 2 + 1, n_total]
+        pk3 = [S.enc_share(dict(ident=x, sk=f_(x), pk=S.G_mulgen(f_(x)), group_pk=vss[0])) for x in pick]
+        lines.append(T + "split_big %s %s %d %d" % (tape_s.hex(), gsk_b.hex(), t, n_total))
+        exp.append("OK %d %s %s T" % (n_total, ",".join(x.hex() for x in pk3), vss_b.hex()))
+        shares = [dict(ident=x, sk=f_(x), pk=S.G_mulgen(f_(x)), group_pk=vss[0]) for x in big_idents]
+        shares_b = [S.enc_share(sh) for sh in shares]
+        n = len(shares)
+        cl.add("identifiers>255")
     # every share passes share verification; a share with an altered secret or a foreign VSS commitment does not
     for i in range(n):
         lines.append(T + "verify_split %s %s" % (shares_b[i].hex(), vss_b.hex())); exp.append("OK T")
     spks = [(s["ident"], s["pk"]) for s in shares]
     spks_b = [S.enc_signer_pk(p) for p in spks]
-    lines.append(T + "derive_group_info %d %s" % (n, vss_b.hex()))
-    exp.append("OK %s %s" % (",".join(x.hex() for x in spks_b), gpk_b.hex()))
+    if big_idents is None:
+        lines.append(T + "derive_group_info %d %s" % (n, vss_b.hex()))
+        exp.append("OK %s %s" % (",".join(x.hex() for x in spks_b), gpk_b.hex()))
     for i in rng.sample(range(n), min(n, 2)):
         lines.append(T + "share_pub " + shares_b[i].hex()); exp.append("OK " + spks_b[i].hex())
     # any t shares interpolate to the group secret (reference-side check of the library's shares)
@@ -263,10 +287,22 @@ def gen(rng, shard, nshards, runs_per_suite, exhaustive_small):
             t = rng.choice([2, 2, 3, 3, 4, 5, 6])
             n = rng.randrange(t, 10)
             cases.append(protocol_run(rng, S, t, n))
+        # groups whose identifiers exceed one byte / two bytes boundaries
+        for ids, ntot in (([255, 256], 300), ([1, 256, 300], 300), ([255, 256, 257, 511, 512], 600), ([256, 65535], 65535), ([65534, 65535, 2], 65535)):
+            idx += 1
+            if idx % nshards != shard:
+                continue
+            if name == "ed448" and ntot > 600:
+                continue
+            if ntot > 600 and exhaustive_small <= 4 and name not in ("ed25519", "p256"):
+                ntot = 1000
+                ids = [min(i, 1000) for i in ids]
+            tt = rng.choice([2, min(3, len(ids))]) if len(ids) > 2 else 2
+            cases.append(protocol_run(rng, S, tt, ntot, None, big_idents=ids))
         # large-n split (documented limit 65535): only the split, with three shares checked
         idx += 1
         if idx % nshards == shard:
-            n = rng.choice([200, 1000, 65535]) if name != "ed448" else 200
+            n = (rng.choice([200, 1000, 65535]) if exhaustive_small > 4 else rng.choice([200, 1000])) if name != "ed448" else 200
             t = 2
             tape_k = rb(rng, 96)
             sk = S.keygen(F.Tape(tape_k))
@@ -315,7 +351,7 @@ def main(argv):
         rep.merge(m)
         req = [s + ":run" for s in F.SUITES] + [s + ":split-big" for s in F.SUITES]
         req += ["honest-run", "duplicate-commitment", "corrupt-sig-share", "corrupt-commitment", "corrupt-signature", "corrupt-share-secret", "corrupt-vss",
-                "share-wrong-signer", "other-message", "wire-roundtrip", "rfc8032-interop", "signer-not-in-list", "other-group-key"]
+                "share-wrong-signer", "other-message", "wire-roundtrip", "rfc8032-interop", "signer-not-in-list", "other-group-key", "identifiers>255"]
         rep.require(*req)
     except Inconclusive as e:
         rep.incon.append(str(e))
